@@ -252,6 +252,9 @@ func (e *CEnv) Eval(x *CExpr) CVal {
 	case "ite":
 		cond := e.Bool(x.Args[0])
 		a, b := e.Eval(x.Args[1]), e.Eval(x.Args[2])
+		if a.ObjVal || b.ObjVal {
+			a, b = e.loadObjVal(a), e.loadObjVal(b)
+		}
 		a, b = e.unify(a, b)
 		r := a
 		r.V = e.fx.mergeVal(cond, a.V, b.V)
@@ -609,6 +612,11 @@ func (e *CEnv) binary(x *CExpr) CVal {
 			if ta.Sort != tb.Sort {
 				e.fail("comparison of different sorts in %s: %s vs %s", exprString(x), ta.Sort, tb.Sort)
 			}
+			eq = c.Eq(ta, tb)
+		} else if aok && bok && ta.Sort == tb.Sort && (isSpecApp(ta) || isSpecApp(tb)) {
+			// an array value compared with the result of a specification function: equality of the whole
+			// SMT arrays (so that specification functions applied to either side agree by congruence); the
+			// cells beyond the Go array's length carry no program meaning
 			eq = c.Eq(ta, tb)
 		} else {
 			t := a.T
@@ -1633,4 +1641,8 @@ func (fx *FnExec) provedNow(g *Term) bool {
 	fx.sideCache[key] = r
 	fx.sideQueries++
 	return r
+}
+
+func isSpecApp(t *Term) bool {
+	return t.Op == "app" && strings.HasPrefix(t.Name, "spec.")
 }
